@@ -314,6 +314,28 @@ theorem hull3_output_edges_twinned (negMax : K) (orig : Array (V3 K)) (evec : Li
     · rw [hget, hget]; exact congrArg R e2
   all_goals exact absurd h (by simp)
 
+/-- the public `remove_unused_points` panics (index out of bounds in its marking pass) exactly when the buffer names a point that does
+not exist; otherwise it is `removeUnused`, to which `removeUnused_spec` applies -/
+theorem removeUnusedPub_eq_none_iff (pts : Array (V3 K)) (idx : Array T3) :
+    removeUnusedPub pts idx = none ↔ ∃ t, t ∈ idx.toList ∧ ¬ (t.a < pts.size ∧ t.b < pts.size ∧ t.c < pts.size) := by
+  unfold removeUnusedPub
+  split
+  · rename_i hall
+    simp only [reduceCtorEq, false_iff, not_exists, not_and, not_not]
+    intro t ht
+    have := (Array.all_eq_true'.mp hall) t (by simpa using ht)
+    simpa [and_assoc] using this
+  · rename_i hall
+    simp only [true_iff]
+    by_contra hc
+    apply hall
+    apply Array.all_eq_true'.mpr
+    intro t ht
+    have : t.a < pts.size ∧ t.b < pts.size ∧ t.c < pts.size := by
+      by_contra hn
+      exact hc ⟨t, by simpa using ht, hn⟩
+    simpa [and_assoc] using this
+
 /-! ## non-vacuity -/
 
 /-- two facets sharing the vertex 1 as `second` end point of their half-edge 0: a pinched silhouette -/
